@@ -72,6 +72,23 @@ def make_cache(cfg: dict, tmpdir: str | None):
     raise ValueError(kind)
 
 
+class _Unserialisable:
+    """A value no pickler accepts (like a lock, an open file, a generator); containers that keep references hold it as is."""
+
+    def __reduce__(self):
+        raise TypeError("cannot pickle this value")
+
+    def __reduce_ex__(self, protocol):
+        raise TypeError("cannot pickle this value")
+
+
+BAD = _Unserialisable()
+
+
+def _val(v):
+    return 0 if v is None else 999 if isinstance(v, _Unserialisable) else v
+
+
 def observe(c, cfg: dict) -> dict:
     keys = cfg["keys"]
     o: dict = {}
@@ -80,7 +97,7 @@ def observe(c, cfg: dict) -> dict:
     if cfg["kind"] == "disk" and cfg["lsize"] == 0:
         o["vals"] = []
     else:
-        o["vals"] = sorted([k, 0 if v is None else v] for k, v in dict(c.cache).items())
+        o["vals"] = sorted([k, _val(v)] for k, v in dict(c.cache).items())
     if cfg["kind"] == "hybrid":
         o["cnts"] = sorted([k, v] for k, v in dict(c.access_counts).items())
         o["durs"] = sorted([k, int(v)] for k, v in dict(c.computation_durations).items())
@@ -113,8 +130,15 @@ def replay_ops(cfg: dict, ops: list[dict], gap: float = 0.0, reuse=None, second=
                         r = c.put(o["k"], o["v"] or None)
                         if cfg["kind"] == "disk" and gap:
                             time.sleep(gap)
+                elif o["op"] == "putbad":     # a refused put is an outcome (RaisedV), anything else that raises is not
+                    try:
+                        r = c.put(o["k"], BAD, float(o["d"])) if cfg["kind"] == "hybrid" else c.put(o["k"], BAD)
+                    except (TypeError, AttributeError, __import__("pickle").PicklingError):
+                        r = -2
+                    if cfg["kind"] == "disk" and gap:
+                        time.sleep(gap)
                 elif o["op"] == "get":
-                    r = c.get(o["k"])
+                    r = _val(c.get(o["k"])) or None
                 elif o["op"] == "clear":
                     r = c.clear()
                 elif o["op"] == "in":
@@ -209,7 +233,7 @@ def run_many(jobs: list[tuple[dict, list[dict]]], gap: float, shared: bool = Fal
 # ------------------------------------------------------------------------------------------------
 MC_CFG = """SPECIFICATION Spec
 CONSTANTS Kind = "{kind}" Max = {max} LSize = {lsize} AW = {aw} DW = {dw} Keys = {keys} Durs = {durs}
-          Depth = {depth} Export = {export} WithReopen = {reopen} WithNone = {none} WithReput = {reput}
+          Depth = {depth} Export = {export} WithReopen = {reopen} WithNone = {none} WithReput = {reput} WithBad = {bad}
 INVARIANT InvWellFormed InvLenBounded InvPutBounds InvGetIsLastPut InvPresentWasPut Emit
 """
 
@@ -223,7 +247,7 @@ def enumerate_sequences(ctx: Ctx, cfg: dict, depth: int, durs: list[int], reopen
     text = MC_CFG.format(kind=cfg["kind"], max=cfg["max"], lsize=cfg["lsize"], aw=cfg["aw"], dw=cfg["dw"],
                          keys=tla_set(cfg["keys"]), durs=tla_set(durs), depth=depth, export="TRUE",
                          reopen="TRUE" if reopen else "FALSE", none="TRUE" if cfg.get("none") else "FALSE",
-                         reput="TRUE" if cfg.get("reput") else "FALSE")
+                         reput="TRUE" if cfg.get("reput") else "FALSE", bad="TRUE" if cfg.get("bad") else "FALSE")
     r = run_tlc("MC_Cache", text, wd, workers=8, coverage=False, allow_violation=False)
     ctx.add_tlc(r, f"MC_Cache {cfg['kind']} max={cfg['max']} depth={depth}")
     seqs = {}
@@ -306,6 +330,8 @@ def random_ops(rng: random.Random, cfg: dict, n: int) -> list[dict]:
             lastv = next((o["v"] for o in reversed(ops) if o["op"] == "put" and o["k"] == k), None)
             ops.append({"op": "put", "k": k, "d": rng.choice(cfg["durs"]),      # 0 = None; sometimes the key's last value again
                         "v": 0 if r2 < 0.1 else lastv if (r2 < 0.25 and lastv is not None) else v})
+        elif x < 0.55:
+            ops.append({"op": "putbad", "k": k, "d": rng.choice(cfg["durs"])})
         elif x < 0.85:
             ops.append({"op": "get", "k": k})
         elif x < 0.9:
@@ -339,17 +365,18 @@ def run(ctx: Ctx) -> None:
     for m in (1, 2, 3):
         # thorough: depth 6 (117 649 sequences) for max_size 2, depth 5 for the others (memory: every history is kept)
         configs.append(({"kind": "lru", "max": m, "lsize": 0, "aw": 1, "dw": 1, "keys": keys3, "none": (m == 2) if quick else (m == 3),
-                         "reput": m == 1},
+                         "reput": m == 1, "bad": m == 2},
                         depth if (quick or m == 2) else depth - 1, [1], False))
     for m in (1, 2, 3):
-        configs.append(({"kind": "hybrid", "max": m, "lsize": 0, "aw": 1, "dw": 1, "keys": keys3, "none": m == 2 and quick},
+        configs.append(({"kind": "hybrid", "max": m, "lsize": 0, "aw": 1, "dw": 1, "keys": keys3, "none": m == 2 and quick, "bad": m == 1},
                         depth - 1 if quick else 4, [1, 2] if quick else [0, 1, 3], False))
     if not quick:
         configs.append(({"kind": "hybrid", "max": 2, "lsize": 0, "aw": 1, "dw": 3, "keys": keys3}, depth - 1, [1, 2], False))
         configs.append(({"kind": "hybrid", "max": 2, "lsize": 0, "aw": 3, "dw": 1, "keys": keys3, "none": True}, 3, [1, 2], False))
-    configs.append(({"kind": "simple", "max": 1, "lsize": 0, "aw": 1, "dw": 1, "keys": keys3, "none": True}, depth, [1], False))
+    configs.append(({"kind": "simple", "max": 1, "lsize": 0, "aw": 1, "dw": 1, "keys": keys3, "none": True, "bad": True}, depth, [1], False))
     for m, ls in ((1, 0), (2, 0), (2, 2), (2, 1)) if quick else ((1, 0), (2, 0), (3, 0), (2, 2), (2, 1), (3, 1)):
-        configs.append(({"kind": "disk", "max": m, "lsize": ls, "aw": 1, "dw": 1, "keys": keys3, "none": (m, ls) == (2, 2), "reput": ls > 0},
+        configs.append(({"kind": "disk", "max": m, "lsize": ls, "aw": 1, "dw": 1, "keys": keys3, "none": (m, ls) == (2, 2), "reput": ls > 0,
+                         "bad": (m, ls) in ((2, 1), (1, 0))},
                         3 if quick else 4, [1], True))
 
     all_traces: list[dict] = []
@@ -388,13 +415,17 @@ def run(ctx: Ctx) -> None:
     for kind in ("lru", "hybrid", "disk", "simple"):
         for m in (2, 3):
             for ls in ((0, 1, 2) if kind == "disk" else (0,)):
-                for again in ("same", "new", "none"):
+                for again in ("same", "new", "none", "bad"):
                     for which in range(m):
                         keys = [f"k{i}" for i in range(m + 1)]
                         cfg = {"kind": kind, "max": m, "lsize": ls, "aw": 1, "dw": 1, "keys": keys}
                         ops = [{"op": "put", "k": keys[i], "v": i + 1, "d": 1 + i % 2} for i in range(m)]
-                        ops.append({"op": "put", "k": keys[which], "d": 1,
-                                    "v": which + 1 if again == "same" else 0 if again == "none" else 50})
+                        if again == "bad":      # a value that cannot be serialised: refused (nothing happens) or kept as is
+                            ops.append({"op": "putbad", "k": keys[which], "d": 1})
+                            ops += [{"op": "get", "k": k} for k in keys[:m]]
+                        else:
+                            ops.append({"op": "put", "k": keys[which], "d": 1,
+                                        "v": which + 1 if again == "same" else 0 if again == "none" else 50})
                         ops.append({"op": "put", "k": keys[m], "v": 99, "d": 1})
                         ops += [{"op": "in", "k": k} for k in keys]
                         if kind == "disk":
